@@ -302,7 +302,7 @@ extern "C" int verif_case(const uint8_t *data, size_t size, struct verif_report 
 			struct pollfd p = { fd, POLLIN, 0 };
 			int n = poll(&p, 1, 0);
 			{ struct qb_ipcs_connection *sc = (struct qb_ipcs_connection *)C[i].sv; int ev = -1; for (auto &e : DISP) if (sc && e.fd == sc->setup.u.us.sock) ev = e.events;
-			  VLOG(r, "   server side: outstanding_notifiers %d, poll_events 0x%x, registered events 0x%x, fc_enabled %d\n", sc ? sc->outstanding_notifiers : -1, sc ? sc->poll_events : -1, ev, sc ? sc->fc_enabled : -1); }
+			  VLOG(r, "   server side: outstanding_notifiers %d, registered events 0x%x, fc_enabled %d\n", sc ? sc->outstanding_notifiers : -1, ev, sc ? sc->fc_enabled : -1); }
 			VFAIL(r, n > 0 && (p.revents & POLLIN) ? "event-not-delivered" : "event-fd-not-readable", "client %d has %zu accepted event(s) queued, the server had its turns (flow control %d), but %s", i, C[i].evt.size(), (int)fc_state,
 			      n > 0 && (p.revents & POLLIN) ? "event_recv does not hand them out" : "the descriptor it polls is not readable and event_recv returns nothing");
 		}
